@@ -292,9 +292,10 @@ func fixedScripts() []script {
 		mk(op{K: "R", T: "a b c"}, op{K: "W", V: 1000001, VS: "1000001"}),                                           // error
 		mk(op{K: "P", T: ""}, fsText(","), op{K: "R", T: "a,b\nc,d\r\ne"}, V),                                        // RS="" newline rule
 		mk(op{K: "U", T: "c"}, op{K: "R", T: "a b c"}, op{K: "S", I: c(2), T: "x,\"y\""}, V, op{K: "S", I: c(5), T: " lead"}, V), // CSV output mode
+		mk(fsText(","), op{K: "S", I: c(0), T: "a,b\nc"}, op{K: "P", T: ""}, op{K: "N"}),                                 // lazy split consults the current RS
 		mk(fsText(""), op{K: "R", T: "aéb"}, V),                                                                       // empty FS
-		mk(op{K: "R", T: "a b c"}, op{K: "S", I: c(1000000), T: "x"}, op{K: "N"}),                                     // the largest index
-		mk(op{K: "R", T: "a b c"}, op{K: "W", V: 1000000, VS: "1000000"}, op{K: "N"}, op{K: "G", I: c(-1000000)}),      // the largest NF
+		// the largest NF and the largest index (one record of 10^6 fields)
+		mk(op{K: "R", T: "a b c"}, op{K: "W", V: 1000000, VS: "1000000"}, op{K: "G", I: c(-1000000)}, op{K: "S", I: c(1000000), T: "x"}, op{K: "N"}),
 	}
 }
 
@@ -313,7 +314,7 @@ func genScripts(o hx.Opts, r *hx.Rand) []script {
 			n = 100000
 		}
 	}
-	big := 3
+	big := 1
 	if o.Tier == "thorough" {
 		big = 40
 	}
